@@ -38,6 +38,7 @@ type Case struct {
 	Ty     string    `json:"ty"`
 	Tuples [][]int64 `json:"tuples,omitempty"`
 	Dims   []Dim     `json:"dims,omitempty"` // cartesian product, first dimension slowest
+	Oracle bool      `json:"oracle_only,omitempty"` // direct oracle only: the block is not sent to the model
 }
 
 func init() {
@@ -328,7 +329,7 @@ func runCase(c *core.Ctx, cs Case, t tinfo, emit bool, val func(int64) *big.Int,
 	if nontrivial {
 		c.Nontrivial()
 	}
-	if emit {
+	if emit && !cs.Oracle {
 		c.CountN("calls_model_checked", n)
 		c.Emit(fmt.Sprintf("Case F%s %s %s [%s] [%s]", cs.Fn, t.coq(), argsCoq(cs, val), obs.String(), strings.Join(pans, ";")))
 	} else {
@@ -1123,8 +1124,10 @@ func exhaustivePairs(c *core.Ctx, t tinfo) {
 	lo := min.Int64()
 	rows := block / 256
 	for _, fn := range []string{"Min", "Max", "Sum", "Product", "Compare", "Less", "Coal"} {
+		// Compare, Less, Coal: the pair table goes to the direct oracle only (they reach the model through the samples)
+		oracleOnly := fn == "Compare" || fn == "Less" || fn == "Coal"
 		for off := 0; off < 256; off += rows {
-			exec(c, Case{Fn: fn, Ty: t.name, Dims: []Dim{{Lo: lo + int64(off), N: rows}, {Lo: lo, N: 256}}})
+			exec(c, Case{Fn: fn, Ty: t.name, Dims: []Dim{{Lo: lo + int64(off), N: rows}, {Lo: lo, N: 256}}, Oracle: oracleOnly})
 		}
 	}
 	var bs []int64
@@ -1239,8 +1242,8 @@ func run(c *core.Ctx) {
 	sweepClamp8[uint8](c, tu8)
 	c.Exhaustive = true
 	c.Note("exhaustive: every value of int8/uint8/int16/uint16 for Abs, Clamp01, Digits10, DigitsSign10; every pair of int8/uint8 values " +
-		"for Min, Max, Sum, Product, Compare, Less, Coal; Clamp for every int8/uint8 v against 13x13 boundary (lo,hi) — all compared with the model; " +
-		"every (v,lo,hi) triple of int8 and uint8 for Clamp against the direct oracle only (2 x 2^24 calls, not in 'evaluations')")
+		"for Min, Max, Sum, Product; Clamp for every int8/uint8 v against 13x13 boundary (lo,hi) — all compared with the model and the direct oracle; " +
+		"every pair for Compare, Less, Coal and every (v,lo,hi) triple of int8 and uint8 for Clamp against the direct oracle only (the 2 x 2^24 Clamp calls are not in 'evaluations')")
 	// 2. boundary-dense and random samples of every type
 	n := c.N(400, 2000, 3000)
 	for _, t := range typeList {
